@@ -1233,8 +1233,8 @@ def construct_correspondence(case, impl, model):
         if not c["shapeOk"]:
             return f"message shape differs from the model's {s['shape']}: {impl.get('msg')!r}"
         if not c.get("problemOk", True):
-            return (f"the problem text is not an instance of typedpy's templates ('Expected …' / 'Does not match regular "
-                    f"expression: …') at the place the {s['shape']} shape puts it: {impl.get('msg')!r}")
+            return (f"the message body violates the side condition of the render -> parse theorems (a non-empty problem where "
+                    f"the {s['shape']} shape puts it, not starting with 'G' / ';'): {impl.get('msg')!r}")
     return None
 
 
@@ -1487,6 +1487,8 @@ def tags(case, impl, model):
     if model and "out" in model:
         for s in model["out"].get("sites", []):
             out.append("site-shape:" + s["shape"])
+        for c in model["out"].get("cmp", []):
+            out.append("problem-template:" + ("typedpy" if c.get("templateOk") else "other"))
     return out
 
 
